@@ -15,17 +15,17 @@ Transliteration of
 Strings are `List Char` (Go `regexp` works on code points; strings that are not valid UTF-8 are
 outside the model).  The Go code compiles a pattern to a regular expression; the model is the
 equivalent direct matcher for the regular expressions that the string rewriting in
-`compilePattern` / `getMoreSpecificPatterns` *actually* produces:
+`compilePattern` / `getMoreSpecificPatterns` produces:
 
-  compilePattern:            `?` -> `.`       `*`,`%` -> `.*`      everything else literal
-  getMoreSpecificPatterns:   `?` -> `[^.*.*]` `*`,`%` -> `.*`      everything else literal
+  compilePattern:            `?` -> `.`        `*`,`%` -> `.*`      everything else literal
+  getMoreSpecificPatterns:   `?` -> `[^\*%]`   `*`,`%` -> `.*`      everything else literal
 
-The second `?` class is not a typo of the model: the Go code first rewrites `\?` to `[^\*%]` and
-*then* rewrites `\*` to `.*` and `%` to `.*` in the whole string, which also rewrites the inside of
-the class it just produced: `[^\*%]` -> `[^.*%]` -> `[^.*.*]`.  So in the "more specific" test a
-`?` absorbs every character except `.` and `*` -- including `%` and newline (`Tie/Ignore.lean`
-re-derives the class from the string literals and the order of the `strings.Replace` calls as
-regenerated from the Go source).  Go's `.` does not match `\n` (no `s` flag); a negated class does.
+Each `strings.Replace` runs over the whole string, so the order of the calls matters: a later
+replacement also rewrites the text an earlier one inserted.  `getMoreSpecificPatterns` rewrites the
+wildcards first and the `?` last (since fix 4a3abdc; before it the `?` was rewritten first and the
+class ended up as `[^.*.*]`, letting a `?` absorb a `%` -- the D1 finding).  `Tie/Ignore.lean`
+re-derives both classes from the string literals and the order of the calls as regenerated from
+the Go source.  Go's `.` does not match `\n` (no `s` flag); a negated class does.
 -/
 namespace DoltVerif.Ignore
 
@@ -37,8 +37,8 @@ def isStar (c : Char) : Bool := c == '*' || c == '%'
 /-- Go regexp `.` without the `s` flag: any code point except newline -/
 def dotOk (c : Char) : Bool := c != '\n'
 
-/-- the class `[^.*.*]` that `getMoreSpecificPatterns` ends up with for `?` -/
-def qOk (c : Char) : Bool := c != '.' && c != '*'
+/-- the class `[^\*%]` that `getMoreSpecificPatterns` uses for `?`: anything but `*` and `%` -/
+def qOk (c : Char) : Bool := c != '*' && c != '%'
 
 /-- `.*` followed by the continuation `k`: some (possibly empty) run of non-newline characters is
 consumed, then `k` must accept the rest. -/
@@ -80,13 +80,19 @@ def replaceGo (old new : Str) : Nat → Str → Str
 
 def replaceAll (old new : Str) (s : Str) : Str := replaceGo old new 0 s
 
+/-- members of a regex character class body: `\x` stands for `x` -/
+def classMembers : Str → Str
+  | [] => []
+  | '\\' :: c :: rest => c :: classMembers rest
+  | c :: rest => c :: classMembers rest
+
 /-- the regex atoms the rewriting produces for `?`: `.` or a negated class `[^...]` -/
 def atomClass (re : Str) (c : Char) : Option Bool :=
   match re with
   | ['.'] => some (dotOk c)
   | '[' :: '^' :: rest =>
     match rest.reverse with
-    | ']' :: setRev => some (!setRev.contains c)
+    | ']' :: setRev => some (!(classMembers setRev.reverse).contains c)
     | _ => none
   | _ => none
 
